@@ -237,6 +237,10 @@ fn check_direct(spec: &LmSpec, sig: &str, l: &mut Local) {
     }
 }
 
+pub fn equivalent_exact_pub(a: &LmSpec, b: &LmSpec) -> bool {
+    equivalent_exact(a, b)
+}
+
 fn equivalent_exact(a: &LmSpec, b: &LmSpec) -> bool {
     use crate::exact::solve_milp;
     // b may lack unused variables of a; compare over b's variables embedded in a's names
